@@ -246,6 +246,76 @@ def cli_case(ctx, k):
         shutil.rmtree(d, ignore_errors=True)
 
 
+def cli_pair_case(ctx, k):
+    """The same criteria on read pairs: each mate is judged by the definition under the declared quality encoding, the
+    pair decision combines the two as --pair-filter says (any, both, first)."""
+    import os
+    import shutil
+    from .. import clirun, fastx
+
+    rng = ctx.rng("c14pair", k)
+    base = rng.choice([33, 64])
+    mode = rng.choice(["ee", "aer", "n"])
+    thr = dict(ee=rng.choice(["0.05", "0.5", "1", "3"]), aer=rng.choice(["0.001", "0.01", "0.05", "0.2"]), n=rng.choice(["0", "1", "0.2"]))[mode]
+    pf = rng.choice([None, "any", "both", "first"])
+
+    def mate(i, tag):
+        n = rng.choice([0, 1, 4, rng.randint(3, 30)])
+        good = rng.random() < 0.5
+        q = [rng.choice([38, 40, 41]) if good else rng.choice([2, 2, 10, 25]) for _ in range(n)]
+        sq = "".join(rng.choice("ACGT" if good else "ACGTNn") for _ in range(n))
+        return (f"p{i} {tag}", sq, "".join(chr(base + x) for x in q), q)
+
+    r1 = [mate(i, "a") for i in range(rng.randint(8, 25))]
+    r2 = [mate(i, "b") for i in range(len(r1))]
+    d = os.path.join(ctx.scratch, f"clip{k}")
+    os.makedirs(d, exist_ok=True)
+    try:
+        for nm, recs in (("in1.fq", r1), ("in2.fq", r2)):
+            with open(os.path.join(d, nm), "w") as f:
+                f.write(fastx.format_fastq([r[:3] for r in recs]))
+        opt = {"ee": "--max-ee", "aer": "--max-aer", "n": "--max-n"}[mode]
+        argv = ["--quality-base", str(base), opt, thr] + (["--pair-filter", pf] if pf else []) + (["-j", "2"] if rng.random() < 0.2 else []) + \
+               ["-o", "o1.fq", "-p", "o2.fq", "in1.fq", "in2.fq"]
+        res = clirun.run(argv, d, timeout=60)
+        case = dict(kind="clipair", k=k, argv=argv)
+        ctx.count("cli_pair_runs")
+        if res.rc != 0:
+            ctx.case(("clipair-fail", k))
+            ctx.violation("cli-failed", f"exit {res.rc}: {res.err[-300:]}; argv={argv}", case)
+            return
+        kept = [fastx.rid(r[0]) for r in fastx.read_records(os.path.join(d, "o1.fq"))[1]]
+        kept2 = [fastx.rid(r[0]) for r in fastx.read_records(os.path.join(d, "o2.fq"))[1]]
+        if kept != kept2:
+            ctx.violation("cli-pair-sync", f"R1 and R2 outputs hold different pairs: {kept[:5]} vs {kept2[:5]}; argv={argv}", case)
+            return
+        kept = set(kept)
+
+        def judge(sq, q):
+            if mode == "n":
+                v, borderline = R.too_many_n(sq, thr)
+                return None if borderline else v
+            e = math.fsum(10 ** (-x / 10) for x in q)
+            val = e if mode == "ee" else (e / len(q) if q else 0.0)
+            t = float(thr)
+            if abs(val - t) <= 1e-4 * max(1.0, val):
+                return None
+            return val > t if (q or mode == "ee") else False
+
+        for (n1, s1, _, q1), (n2, s2, _, q2) in zip(r1, r2):
+            d1, d2 = judge(s1, q1), judge(s2, q2)
+            if d1 is None or d2 is None:
+                continue
+            drop = {"any": d1 or d2, None: d1 or d2, "both": d1 and d2, "first": d1}[pf]
+            key = fastx.rid(n1)
+            ctx.case(("clipair", mode, thr, base, pf, s1, str(q1), s2, str(q2)) if (d1 or d2) else None)
+            if (key not in kept) != bool(drop):
+                ctx.violation("cli-pair-filter", f"{opt} {thr} --pair-filter {pf} --quality-base {base}: pair {key} (R1 {s1!r}/{q1} -> {d1}, R2 {s2!r}/{q2} -> {d2}) "
+                              f"must be {'discarded' if drop else 'kept'}, but it was {'kept' if key in kept else 'discarded'}; argv={argv}", case, klass=f"{mode}{base}{pf}")
+    finally:
+        shutil.rmtree(d, ignore_errors=True)
+
+
 def run_shard(ctx):
     asan = ctx.variant == "asan"
     rng = ctx.rng("c14")
@@ -276,6 +346,8 @@ def run_shard(ctx):
     if not asan:
         for k in range(ctx.scale(12, 200)):
             cli_case(ctx, ctx.shard * 100000 + k)
+        for k in range(ctx.scale(6, 100)):
+            cli_pair_case(ctx, ctx.shard * 100000 + k)
     if ctx.tier == "thorough" and not asan:
         idx = 0
         for L in range(0, 13):
@@ -297,6 +369,9 @@ def replay(ctx, case):
         check_seq(ctx, case["s"], case["max_n"])
     elif case.get("kind") == "quals":
         check_quals(ctx, case["quals"], case["thr_ee"], case["thr_aer"])
+    elif case.get("kind") == "clipair":
+        ctx.shard = case["k"] // 100000
+        cli_pair_case(ctx, case["k"])
     elif case.get("kind") == "cli":
         ctx.shard = case["k"] // 100000
         cli_case(ctx, case["k"])
